@@ -358,7 +358,7 @@ def reload_histories(ctx):
               {'project': None, 'roots': [{'dir': 'b', 'ver': 1}], 'yaml': 'project:\n  roots:\n    - path: b\n      rego-version: 1\n'},
               {'project': 1, 'roots': [], 'yaml': 'project:\n  rego-version: 1\n'},
               {'project': None, 'roots': [], 'yaml': 'rules: {}\n'}]]
-    hists = fixed + [[cfg() for _ in range(3 + rng.below(2))] for _ in range(2 if ctx.quick() else 25)]
+    hists = fixed + [[cfg() for _ in range(3 + (0 if ctx.quick() else rng.below(2)))] for _ in range(1 if ctx.quick() else 25)]
     return hists
 
 
